@@ -17,6 +17,7 @@ length, element sub-patterns, one starred capture) and mapping patterns (isinsta
   functools.partial(F, a, k=v)(x)   ->   F(a, x, k=v);  `p = functools.partial(F, ...)` bound once in a function and only ever called -> the calls are F(...)
   return (not P) or Q   ->   if not P: return True / return Q;   return C and Q  ->  if not C: return False / return Q
       (only when the first operand is a `not`, a comparison or isinstance / hasattr / callable - always a bool)
+  (f if C else g)(args)   ->   f(args) if C else g(args)
   raise X from (A if C else B)   ->   if C: raise X from A / else: raise X from B
   try: <return / x => D[K]  /  except KeyError: <H>   ->   if K in D: <return / x =>  D[K] / else: <H>
       (one statement in the body, D an attribute or a local name - never `self` itself -, K free of calls other than id / str / repr /
@@ -380,6 +381,18 @@ class _PartialApply(ast.NodeTransformer):
         return node
 
 
+class _CallOfChoice(ast.NodeTransformer):
+    def visit_Call(self, node):
+        self.generic_visit(node)
+        if isinstance(node.func, ast.IfExp):
+            import copy as _copy
+            c = node.func
+            a = ast.copy_location(ast.Call(func=c.body, args=node.args, keywords=node.keywords), node)
+            b = ast.copy_location(ast.Call(func=c.orelse, args=_copy.deepcopy(node.args), keywords=_copy.deepcopy(node.keywords)), node)
+            return ast.copy_location(ast.IfExp(test=c.test, body=a, orelse=b), node)
+        return node
+
+
 class _BoolReturn(ast.NodeTransformer):
     def _is_bool(self, e):
         return (isinstance(e, ast.UnaryOp) and isinstance(e.op, ast.Not)) or isinstance(e, ast.Compare) or \
@@ -481,6 +494,9 @@ def desugar(tree):
         ast.fix_missing_locations(tree)
     if any(isinstance(n, ast.Call) and ast.unparse(n.func) in _PartialApply.NAMES for n in ast.walk(tree)):
         tree = _PartialApply({n.name: n for n in tree.body if isinstance(n, ast.FunctionDef)}).visit(tree)
+        ast.fix_missing_locations(tree)
+    if any(isinstance(n, ast.Call) and isinstance(n.func, ast.IfExp) for n in ast.walk(tree)):
+        tree = _CallOfChoice().visit(tree)
         ast.fix_missing_locations(tree)
     if any(isinstance(n, ast.Return) and isinstance(n.value, ast.BoolOp) for n in ast.walk(tree)):
         tree = _BoolReturn().visit(tree)
